@@ -199,9 +199,21 @@ package lnwallet
 //@        msg.NextLocalCommitHeight > remoteTailHeight
 //@   site call AtIndex: assert arg(1) == msg.RemoteCommitTailHeight - 1 && msg.RemoteCommitTailHeight != 0
 //@   site call bytes.Equal: assert arg(0) == sliceof(*retn(AtIndex, 0)) && arg(1) == sliceof(msg.LastRemoteCommitSecret)
+//@   let lt = localTailHeight
+//@   let rt = remoteTailHeight
+//@   let rtip = remoteTipHeight
+//@   site return ErrCommitSyncRemoteDataLoss: assert
+//@           (msg.RemoteCommitTailHeight <= lt && wrap(msg.RemoteCommitTailHeight + 1, 64) < lt) || msg.NextLocalCommitHeight <= rt
+//@   site return nil: assert !isRestoredChan && msg.RemoteCommitTailHeight <= lt &&
+//@           (msg.RemoteCommitTailHeight == lt || wrap(msg.RemoteCommitTailHeight + 1, 64) == lt) &&
+//@           (msg.NextLocalCommitHeight == wrap(rtip + 1, 64) || msg.NextLocalCommitHeight == rtip) && msg.NextLocalCommitHeight > rt
+//@   site return nil as insync: assert (msg.RemoteCommitTailHeight == lt && msg.NextLocalCommitHeight == wrap(rtip + 1, 64)) ==> len(result0) == 0
+//@   site call append nth 3: assert arg(0) == commitUpdates && retn(RemoteCommitChainTip, 1) == nil
+//@   site call append nth 4: assert lc.channelState.LastWasRevoke && arg(0) == commitUpdates && arg(1) == updates
+//@   site call append nth 5: assert !lc.channelState.LastWasRevoke && arg(0) == updates && arg(1) == commitUpdates
 //@
 //@ func (lc *LightningChannel) restoreStateLogs
-//@   props C02
+//@   props C02 C03
 //@   loop * havoc
 //@   loop 0 step incomingRemoteAddHeights[r.HtlcIndex] == pendingRemoteCommit.height
 //@   loop 1 step incomingRemoteAddHeights[r.HtlcIndex] == remoteCommitment.height
@@ -230,7 +242,7 @@ package lnwallet
 //@   site call restorePendingLocalUpdates: assert pendingRemoteCommit != nil && arg(1) == pendingRemoteCommitDiff && arg(2) == pendingRemoteKeys
 //@
 //@ func (lc *LightningChannel) restorePendingRemoteUpdates
-//@   props C02
+//@   props C02 C03
 //@   loop * havoc
 //@   site store Dual.Remote: assert pendingRemoteCommit != nil && value == pendingRemoteCommit.height &&
 //@        retn(remoteLogUpdateToPayDesc, 0).LogIndex < pendingRemoteCommit.messageIndices.Remote
@@ -242,7 +254,7 @@ package lnwallet
 //@   site call remoteLogUpdateToPayDesc: assert arg(2) == lc.updateLogs.Local && arg(3) == localCommitmentHeight
 //@
 //@ func (lc *LightningChannel) restorePeerLocalUpdates
-//@   props C02
+//@   props C02 C03
 //@   loop * havoc
 //@   site call restoreUpdate: assert arg(0) == lc.updateLogs.Local && arg(1) == retn(localLogUpdateToPayDesc, 0) &&
 //@        retn(localLogUpdateToPayDesc, 1) == nil
@@ -371,3 +383,34 @@ package lnwallet
 //@   ensures ret(Uint64) <= 281474976710655
 //@   site call Uint64: assert len(arg(1)) == 8 && arg(1)[0] == 0 && arg(1)[1] == 0
 //@   nopanic
+//@
+//@ func (lc *LightningChannel) localLogUpdateToPayDesc
+//@   props C03 C02
+//@   requires logUpdate != nil
+//@   let m = logUpdate.UpdateMsg
+//@   ensures result1 == nil ==> result0 != nil && result0.LogIndex == logUpdate.LogIndex
+//@   ensures result1 == nil ==> result0.removeCommitHeights.Remote == commitHeight && result0.removeCommitHeights.Local == 0 &&
+//@           result0.addCommitHeights.Local == 0 &&
+//@           result0.addCommitHeights.Remote == ite(typeis(m, *lnwire.UpdateFee), commitHeight, 0)
+//@   ensures result1 == nil ==> result0.EntryType == ite(typeis(m, *lnwire.UpdateFulfillHTLC), Settle,
+//@           ite(typeis(m, *lnwire.UpdateFailHTLC), Fail, ite(typeis(m, *lnwire.UpdateFailMalformedHTLC), MalformedFail, FeeUpdate)))
+//@   ensures result1 == nil <==> (typeis(m, *lnwire.UpdateFulfillHTLC) || typeis(m, *lnwire.UpdateFailHTLC) ||
+//@           typeis(m, *lnwire.UpdateFailMalformedHTLC) || typeis(m, *lnwire.UpdateFee))
+//@   site call lookupHtlc nth 0: assert arg(0) == remoteUpdateLog && arg(1) == dynptr(m, *lnwire.UpdateFulfillHTLC).ID
+//@   site call lookupHtlc nth 1: assert arg(0) == remoteUpdateLog && arg(1) == dynptr(m, *lnwire.UpdateFailHTLC).ID
+//@   site call lookupHtlc nth 2: assert arg(0) == remoteUpdateLog && arg(1) == dynptr(m, *lnwire.UpdateFailMalformedHTLC).ID
+//@
+//@ func (lc *LightningChannel) remoteLogUpdateToPayDesc
+//@   props C03 C02
+//@   requires logUpdate != nil
+//@   let m = logUpdate.UpdateMsg
+//@   let isAdd = typeis(m, *lnwire.UpdateAddHTLC)
+//@   ensures result1 == nil ==> result0 != nil && result0.LogIndex == logUpdate.LogIndex
+//@   ensures result1 == nil ==> result0.removeCommitHeights.Remote == 0 && result0.addCommitHeights.Remote == 0 &&
+//@           result0.removeCommitHeights.Local == ite(isAdd, 0, commitHeight) &&
+//@           result0.addCommitHeights.Local == ite(isAdd || typeis(m, *lnwire.UpdateFee), commitHeight, 0)
+//@   ensures result1 == nil && !isAdd ==> result0.EntryType == ite(typeis(m, *lnwire.UpdateFulfillHTLC), Settle,
+//@           ite(typeis(m, *lnwire.UpdateFailHTLC), Fail, ite(typeis(m, *lnwire.UpdateFailMalformedHTLC), MalformedFail, FeeUpdate)))
+//@   site call lookupHtlc nth 0: assert arg(0) == localUpdateLog && arg(1) == dynptr(m, *lnwire.UpdateFulfillHTLC).ID
+//@   site call lookupHtlc nth 1: assert arg(0) == localUpdateLog && arg(1) == dynptr(m, *lnwire.UpdateFailHTLC).ID
+//@   site call lookupHtlc nth 2: assert arg(0) == localUpdateLog && arg(1) == dynptr(m, *lnwire.UpdateFailMalformedHTLC).ID
